@@ -244,3 +244,24 @@ def _(c):
         c.scenario(f"{ua}-x->{bad}-then->{ub}", pre)
     c.ensures("near(result, fresh.value(ub), 0)", "same-as-a-quantity-that-was-never-refused")
     c.ensures("self.baseunits.expression == ua", "still-in-its-own-unit")
+
+
+# ---- the augmented forms  a += b,  a -= b  of two levels are the same power sum / difference ------------------------------------
+for opname, sign in (("iadd", "+"), ("isub", "-")):
+    @contract(Q + ".value", ["C05"], name=f"Quantity.value[after-augmented-level-{'sum' if sign == '+' else 'difference'}]")
+    def _(c, opname=opname, sign=sign):
+        for u in ["dB", "B", "dBm", "dBV"]:
+            fv = 0.1 if u.startswith("d") else 1.0
+
+            def pre(bd, u=u, fv=fv, opname=opname):
+                a = bd.new(Q, bd.real("a"), u)
+                b = bd.new(Q, bd.real("b"), u)
+                av, bv = bd.getattr(bd.getattr(a, "magnitude"), "value"), bd.getattr(bd.getattr(b, "magnitude"), "value")
+                r = getattr(bd, opname)(a, b)
+                return dict(args=[r, u], env=dict(a=av, b=bv, fv=fv, qb=b))
+            c.scenario(u, pre)
+        if sign == "-":
+            c.requires("a > b")
+        c.ensures(f"near(result, log10(pow10(a * fv) {sign} pow10(b * fv)) / fv, 0)", "power-sum" if sign == "+" else "power-difference")
+        c.ensures("qb.magnitude.value == b", "right-operand-unchanged")
+        c.no_raise()
